@@ -30,6 +30,16 @@ fn sdes_case(s: &[u8], l: &mut Local) {
         Ok(sd) => {
             let chunks = observe::obs_chunks(&sd, s.len());
             let lens: Vec<usize> = sd.chunks().take(observe::step_bound(s.len())).map(|c| c.length()).collect();
+            // a parsed view is a pure function of the bytes: having been asked questions must not make it differ
+            // (==) from a fresh parse of the same bytes
+            let fresh = Sdes::parse(s);
+            let same = match &fresh {
+                Ok(f) => *f == sd,
+                Err(_) => false,
+            };
+            if !same {
+                return Ok((Err(observe::ObsErr::Other("after its accessors were called, the parsed value is no longer equal to a fresh parse of the same bytes".into())), lens));
+            }
             Ok((chunks, lens))
         }
     });
